@@ -2184,8 +2184,9 @@ def read_lines(path_or_source, *, include=False, include_dirs=None):
 
 
 def lex_tokens(line):
-    RE_ERROR = re.compile(r'\s*error (.*)')
-    RE_STRING = re.compile(r'\s*string (.*)')
+    # the keyword may be followed by a tab instead of a space, like every other keyword
+    RE_ERROR = re.compile(r'\s*error[ \t](.*)')
+    RE_STRING = re.compile(r'\s*string[ \t](.*)')
 
     # simplify lexing a single string
     if type(line) == str:
